@@ -298,6 +298,9 @@ def run(facts, tier):
     r13_3_wrong_doc_first(facts, res)
     r13_3c_everywhere(facts, res)
     r13_5(facts, res)
+    # index-size errors of the data setters: the bounds guards of C16 (offset > length raises, a count past the end is clipped)
+    from props import c16
+    c16.guard_rules(facts, res, "R13-6", "R13-6c")
     import staleidx
     staleidx.rule(facts, res, "R13-4", lambda f: f["crate"] in ("xml_info", "xml_dom"), floor=7)
     return res
